@@ -678,5 +678,5 @@ func checkTwoWayLookupsIndependent(p *Prog, r *Report) {
 			}
 		}
 	}
-	r.floor("type lookups in AddTwoWayRel", n, 2)
+	r.count("type lookups in AddTwoWayRel", n) // the lookups may be delegated to a helper; nothing to decide then
 }
